@@ -161,8 +161,13 @@ func (c *Client) Start(ctx context.Context) {
 
 func (c *Client) handleIncomingDelegation(ctx context.Context, link *protocol.Link, delegation net.Conn) error {
 	hostname := link.GetHostname()
+	// the route and the cached proxy are read under the configuration lock: a link arriving while a
+	// rebuild or reload sits between closing the outdated proxies and rebuilding the router would
+	// otherwise cache a proxy for the previous target, and that proxy would outlive the change
+	c.configMu.RLock()
 	u, ok := c.Configuration.router.Load(hostname)
 	if !ok {
+		c.configMu.RUnlock()
 		c.Logger.Error("Unknown hostname in connection", zap.String("hostname", hostname))
 		delegation.Close()
 		return tun.ErrDestinationNotFound
@@ -176,11 +181,14 @@ func (c *Client) handleIncomingDelegation(ctx context.Context, link *protocol.Li
 	switch link.GetAlpn() {
 	case protocol.Link_HTTP:
 		c.getHTTPProxy(ctx, hostname, u).acceptor.Handle(delegation)
+		c.configMu.RUnlock()
 
 	case protocol.Link_TCP:
+		c.configMu.RUnlock()
 		c.forwardStream(ctx, hostname, delegation, u)
 
 	default:
+		c.configMu.RUnlock()
 		c.Logger.Error("Unknown alpn for forwarding", zap.String("alpn", link.GetAlpn().String()))
 		delegation.Close()
 		return tun.ErrDestinationNotFound
